@@ -71,10 +71,12 @@ func describe(w *world, tab *slotTable, asg []int, claimed int) map[string]inter
 
 // runVerifyCommit enumerates all nv^n assignments x claimed ids on world w. nv limits the alphabet to the
 // first nv variants (numClean = clean alphabet, len(slotVariants) = everything).
-func runVerifyCommit(r *vk.Run, st *p1stats, w *world, nv int, claimedIDs []int) {
+func runVerifyCommit(rp *reporter, st *p1stats, w *world, nv int, claimedIDs []int) {
+	r := rp.r
 	tab := w.slotTable(0, stdIDs)
 	vs := w.valSet()
 	total := pow(nv, w.n)
+	r.Sample(map[string]interface{}{"part": "VerifyCommit", "validators": w.String(), "slot_alphabet": nv, "assignments": total, "claimed_ids": len(claimedIDs)})
 	chunk := total / 256 // enough chunks to occupy all CPUs even for small spaces
 	if chunk < 1 {
 		chunk = 1
@@ -94,42 +96,50 @@ func runVerifyCommit(r *vk.Run, st *p1stats, w *world, nv int, claimedIDs []int)
 				slots[i] = tab.desc[i][v]
 			}
 			clean := w.clean(slots, H, 0)
-			for _, claimed := range claimedIDs {
-				pre := make([]*types.Vote, w.n)
-				for i, v := range asg {
-					pre[i] = tab.votes[i][v]
+			for ci, claimed := range claimedIDs {
+				// the Commit's own BlockID field: the claimed id, and (up to three validators) also another id —
+				// what counts is the id the caller asks about
+				fields := []int{claimed}
+				if w.n <= 3 {
+					fields = append(fields, claimedIDs[(ci+1)%len(claimedIDs)])
 				}
-				commit := &types.Commit{BlockID: blockIDs[claimed], Precommits: pre}
-				var err error
-				if p, pv := vk.Catch(func() { err = vs.VerifyCommit(chainID, blockIDs[claimed], H, commit) }); p {
-					// a panic is not an acceptance; counted and reported in the evidence, the property is silent on it
-					atomic.AddInt64(&st.panics, 1)
-					err = fmt.Errorf("panic: %v", pv)
-					r.Note("VerifyCommit panicked: %v on %v", pv, describe(w, tab, asg, claimed))
-				}
-				ref := w.refCommit(slots, claimed, H, 0, relax{})
-				atomic.AddInt64(&st.cases, 1)
-				st.verdict(errClass(err))
-				if ref {
-					atomic.AddInt64(&st.refAccept, 1)
-				}
-				if clean {
-					atomic.AddInt64(&st.cleanCases, 1)
-				}
-				if err == nil {
-					atomic.AddInt64(&st.accepted, 1)
-					if clean {
-						atomic.AddInt64(&st.cleanAccept, 1)
+				for _, field := range fields {
+					pre := make([]*types.Vote, w.n)
+					for i, v := range asg {
+						pre[i] = tab.votes[i][v]
 					}
-					if !ref {
-						r.Violation("verifycommit:accepts-without-quorum:"+w.cause(slots, claimed, H, 0),
-							fmt.Sprintf("VerifyCommit accepts a commit for %s at height %d although correctly signed precommits for exactly that id in one round do not exceed 2/3 of the power", idName[claimed], H),
+					commit := &types.Commit{BlockID: blockIDs[field], Precommits: pre}
+					var err error
+					if p, pv := vk.Catch(func() { err = vs.VerifyCommit(chainID, blockIDs[claimed], H, commit) }); p {
+						// a panic is not an acceptance; counted and reported in the evidence, the property is silent on it
+						atomic.AddInt64(&st.panics, 1)
+						err = fmt.Errorf("panic: %v", pv)
+						r.Note("VerifyCommit panicked: %v on %v", pv, describe(w, tab, asg, claimed))
+					}
+					ref := w.refCommit(slots, claimed, H, 0, relax{})
+					atomic.AddInt64(&st.cases, 1)
+					st.verdict(errClass(err))
+					if ref {
+						atomic.AddInt64(&st.refAccept, 1)
+					}
+					if clean {
+						atomic.AddInt64(&st.cleanCases, 1)
+					}
+					if err == nil {
+						atomic.AddInt64(&st.accepted, 1)
+						if clean {
+							atomic.AddInt64(&st.cleanAccept, 1)
+						}
+						if !ref {
+							rp.accepts("verifycommit", w, append([]*vdesc{}, slots...), claimed, 0,
+								fmt.Sprintf("VerifyCommit accepts a commit for %s at height %d although correctly signed precommits for exactly that id in one round do not exceed 2/3 of the power", idName[claimed], H),
+								describe(w, tab, asg, claimed))
+						}
+					} else if clean && ref {
+						r.Violation("verifycommit:rejects-valid-commit",
+							fmt.Sprintf("VerifyCommit rejects (%v) a commit whose present slots are all correctly signed precommits of one round and whose votes for %s exceed 2/3", err, idName[claimed]),
 							describe(w, tab, asg, claimed))
 					}
-				} else if clean && ref {
-					r.Violation("verifycommit:rejects-valid-commit",
-						fmt.Sprintf("VerifyCommit rejects (%v) a commit whose present slots are all correctly signed precommits of one round and whose votes for %s exceed 2/3", err, idName[claimed]),
-						describe(w, tab, asg, claimed))
 				}
 			}
 		}
@@ -138,7 +148,8 @@ func runVerifyCommit(r *vk.Run, st *p1stats, w *world, nv int, claimedIDs []int)
 
 // runWrongSize: commits with one slot too few / one too many (the extra slot holds a correctly signed vote of
 // a key outside the set). Soundness only: acceptance needs the reference quorum over the set's own slots.
-func runWrongSize(r *vk.Run, st *p1stats, w *world) {
+func runWrongSize(rp *reporter, st *p1stats, w *world) {
+	r := rp.r
 	tab := w.slotTable(0, stdIDs)
 	vs := w.valSet()
 	nv := numClean
